@@ -408,6 +408,7 @@ def main(argv=None):
     ap.add_argument('--tier', default=os.environ.get('VERIF_TIER') or 'quick')
     ap.add_argument('--replay')
     ap.add_argument('--only', help='harness name filter (substring)')
+    ap.add_argument('--param', help='with --only: universe label filter (substring); debugging aid, never writes evidence')
     ap.add_argument('--procs', type=int, default=int(os.environ.get('SYMX_PROCS', '0')) or None)
     ap.add_argument('--no-validate', action='store_true')
     ap.add_argument('--verbose', '-v', action='store_true')
@@ -450,6 +451,8 @@ def main(argv=None):
         if h.tier_params:
             h.params = h.tier_params[tier]
         for i in range(len(h.params)):
+            if args.param and args.param not in h.param_label(i):
+                continue
             jobs.append(((p, name), i, tier, opts))
     if seed:
         import random
@@ -566,7 +569,7 @@ def report(prop, tier, seed, results, wall, args, REGISTRY, known):
         'wall_s': round(wall, 2),
         'violations': len(viol),
     }
-    if not args.no_evidence and not args.only:
+    if not args.no_evidence and not args.only and not args.param:
         os.makedirs(os.path.join(VERIF, 'evidence'), exist_ok=True)
         with open(os.path.join(VERIF, 'evidence', prop + '.json'), 'w') as f:
             json.dump(ev, f, indent=1, default=str)
